@@ -1196,3 +1196,18 @@ mod tests {
         }
     }
 }
+
+#[cfg(anoncreds_verif)]
+#[doc(hidden)]
+pub(crate) mod verif_hooks {
+    use super::*;
+
+    pub(crate) fn create_index_deltas(
+        delta: &bitvec::vec::BitVec,
+        list: &bitvec::vec::BitVec,
+        issued: &mut HashSet<u32>,
+        revoked: &mut HashSet<u32>,
+    ) {
+        super::create_index_deltas(delta, list, issued, revoked)
+    }
+}
